@@ -65,9 +65,32 @@ package origins
 //@   props C01 C02 C03 C09 C10 C11 C13 C16 C17 C18
 //@   pure
 //@   allocs <= 0
-//@   trusted TEMPORARY until L3 is built
-//@   requires t != nil && o != nil
-//@   ensures result == TreeHas(t, o.Scheme, o.Host.Value, o.Port)
+//@   requires t != nil && o != nil && NodeOK(addr(t.root)) && 0 <= o.Port && o.Port <= 65535
+//@   ensures C01.contains_is_match: result == Match(addr(t.root), o.Host.Value, o.Scheme, o.Port)
+//@   loop 0 invariant n != nil && NodeOK(n)
+//@   loop 0 invariant C01.descent: Match(addr(t.root), o.Host.Value, o.Scheme, o.Port) == MatchBody(n, host, o.Scheme, o.Port)
+//@   loop 0 decreases len(host)
+//@   hint when found: found ==> edgeIdx(n, label) == i
+//@   hint when suf: len(suf) == len(n.suf) ==> IsSuffix(n.suf, host)
+
+//@ func splitAtCommonSuffix
+//@   props C01 C13 C17 C18
+//@   pure
+//@   allocs <= 0
+//@   ensures len(result2) <= len(a) && len(result2) <= len(b) && result0 === a[:len(a)-len(result2)] && result1 === b[:len(b)-len(result2)]
+//@   ensures forall k :: 0 <= k && k < len(result2) ==> a[k + (len(a)-len(result2))] == b[k + (len(b)-len(result2))]
+//@   ensures forall k :: 0 <= k && k < len(result2) ==> a[k + (len(a)-len(result2))] == result2[k]
+//@   ensures len(result2) == len(a) || len(result2) == len(b) || a[len(a)-len(result2)-1] != b[len(b)-len(result2)-1]
+//@   loop 0 invariant -1 <= i && i < len(s) && len(l) == len(s)
+//@   loop 0 invariant forall k :: i < k && k < len(s) ==> s[k] == l[k]
+//@   loop 0 decreases i + 1
+
+//@ func node.contains
+//@   props C01 C13 C17 C18
+//@   pure
+//@   allocs <= 0
+//@   requires n != nil && NodeInv(n) && 0 <= port && port <= 65536
+//@   ensures C01.node_membership: found == NodeHas(n, scheme, port, wildcardSubs)
 
 //@ func Parse
 //@   props C01 C02 C03 C09 C10 C11 C13 C16 C17 C18
@@ -134,7 +157,8 @@ package origins
 //@   assigns heap("E!Int")
 //@   assigns heap("E!Slice")
 //@   ensures !(t.root.schemes == nil && t.root.children == nil)
-//@   ensures forall o *Tree :: o != t ==> o.root.schemes === old(o.root.schemes) && o.root.children === old(o.root.children)
+//@   ensures old(NodeOK(addr(t.root))) ==> NodeOK(addr(t.root))
+//@   ensures forall o *Tree :: o != t ==> o.root.schemes === old(o.root.schemes) && o.root.children === old(o.root.children) && o.root.edges === old(o.root.edges) && o.root.ports === old(o.root.ports)
 
 //@ func parsePort
 //@   props C01 C13 C17 C18
